@@ -327,3 +327,86 @@ def c08(tier: str) -> int:
 
 
 _EVENT_MAKERS.update({'tree': conv.ev_tree, 'render': conv.ev_render})
+
+
+@check('C20')
+def c20(tier: str) -> int:
+    from . import rename
+    rep = Report('C20', tier)
+    rename.run(rep, tier)
+    rep.assumptions += ['identifiers over a-z / A-Z / _ / -; exhaustive part bounded by the constants of the MC config',
+                        'class-level binding sampled (every k-th enumerated name)']
+    return rep.finish()
+
+
+C10_CLAUSES = {'must-accept', 'must-reject', 'image', 'foreign-exception'}
+
+
+@check('C10')
+def c10(tier: str) -> int:
+    from . import cache
+    rep = Report('C10', tier)
+    res = engine.model_check('MC_Cache', 'MC_Cache_pinned.cfg', facts=False)
+    rep.add_mc(res, 'MC_Cache_pinned.cfg (design with key arguments kept alive)')
+    if res.violated:
+        rep.witness({'clause': 'design-invariant', 'type_kind': ','.join(res.violated), 'value_kind': ''}, {'tlc_output_tail': res.out[-3000:]})
+        return rep.finish()
+    res2 = engine.model_check('MC_Cache', 'MC_Cache_found.cfg', facts=False)
+    rep.extra['model_of_unpinned_design'] = {
+        'violates': res2.violated, 'distinct_states': res2.distinct,
+        'note': 'cross-check: with PinKeyArgs = FALSE (key = id(type), nothing keeps the type alive) TLC must find the '
+                'Alloc; lookup; Drop; Alloc; lookup counterexample to Transparent'}
+    if 'Transparent' not in res2.violated:
+        raise tlc.MachineryError('the cache model no longer predicts the id-reuse defect: model and property out of step')
+    n = 150 if tier == 'quick' else 3000
+    stats = {'allocs': 0, 'drops': 0, 'lookups': 0, 'drift': 0, 'id_reused_for_other_type': 0}
+    behaviours = cache.simulate('MC_Cache_sim.cfg', n, 40, 1 + engine.seed())
+    events, desc = cache.replay(behaviours, stats)
+    ev2, desc2, st2 = cache.sequential_histories(engine.seed(), 60 if tier == 'quick' else 1500, 40)
+    events += ev2
+    desc.update(desc2)
+    bad = engine.validate(events, name='c10')
+    rep.validated += len(events)
+    evs = {e['id']: e for e in events}
+    for ident, clauses in bad.items():
+        d = desc[ident]
+        e = evs[ident]
+        for cl in clauses:
+            if cl in C10_CLAUSES:
+                rep.witness({'clause': 'history-dependent:' + cl, 'type_kind': d['type'] + '/' + d['handlers'], 'value_kind': str(d['probe']),
+                             'outcome': e['out']['k']},
+                            {'history': d['history'][-25:], 'behaviour': d['behaviour'], 'event': e})
+    rep.samples += [{'history': desc[i]['history'][-8:], 'probe': desc[i]['probe'], 'outcome': evs[i]['out']['k']}
+                    for i in list(evs)[:: max(1, len(evs) // 5)]][:5]
+    rep.extra['replay'] = {'behaviours_from_tlc_simulation': len(behaviours), 'threaded': stats, 'sequential': st2,
+                           'events': len(events), 'rejected': len(bad)}
+    _c10_lru(rep, tier)
+    rep.assumptions += ['CPython address reuse cannot be forced: the replay records real ids (id_reused_for_other_type says how '
+                        'often an address came back for another type)',
+                        'thread schedules are enforced at the four modelled steps; finer interleavings are excluded by the GIL',
+                        'handlers are registered/configured before the first conversion']
+    return rep.finish()
+
+
+def _c10_lru(rep, tier: str) -> None:
+    from . import cache
+    ident = 2 * 10 ** 6
+    total = {}
+    for m in (0, 1, 2, 3):
+        res = engine.model_check('MC_LRU', f'MC_LRU_{m}.cfg', facts=False, name=f'lru{m}')
+        rep.add_mc(res, f'MC_LRU_{m}.cfg')
+        if res.violated:
+            rep.witness({'clause': 'design-invariant', 'type_kind': f'lru maxsize={m}: ' + ','.join(res.violated), 'value_kind': ''},
+                        {'tlc_output_tail': res.out[-3000:]})
+            continue
+        beh = cache.simulate_lru(m, 60 if tier == 'quick' else 1500, 30, 11 + engine.seed())
+        events, desc, ident = cache.replay_lru(m, beh, ident)
+        bad = engine.validate(events, module='PaneLRUTrace', cfg=f'PaneLRUTrace_{m}.cfg', name=f'c10-lru{m}', chunks=1)
+        rep.validated += len(events)
+        total[f'maxsize={m}'] = {'behaviours': len(beh), 'events': len(events), 'rejected': len(bad)}
+        evs = {e['id']: e for e in events}
+        for i, clauses in bad.items():
+            for cl in clauses:
+                rep.witness({'clause': 'lru:' + cl, 'type_kind': f'KeyCache(maxsize={m})', 'value_kind': evs[i]['a'], 'outcome': evs[i].get('raised', '')},
+                            {'history': desc[i]['history'][-20:], 'event': evs[i]})
+    rep.extra['lru_replay'] = total
